@@ -236,6 +236,24 @@ def run(rep: Report, tier: str, seed: int) -> None:
             rep.case(f"{label}|{nc}", True, sample={"unit": label, "files": fs} if hash(label) % 173 == 0 else None)
             tag = next(iter(fs)).split("/")[1]  # u<T>
             by_unit[tag] = (label, feat, fs)
+        # a referenced class/enum of the package keeps its real declaration: a stub 'class B' without members where the
+        # Python source has an enum or a class with a method is a placeholder that replaced (or shadows) the real stub
+        import re as _re2
+
+        for path, m in idx.modules.items():
+            for d in m.decls:
+                mt = _re2.match(r"^_?B(\d{4})[a-z]?z?$", d.py_name or d.name)
+                if not mt or f"u{mt.group(1)}" not in by_unit:
+                    continue
+                label, feat, fs = by_unit[f"u{mt.group(1)}"]
+                src = "\n".join(fs.values())
+                is_enum = _re2.search(rf"class {_re2.escape(d.py_name or d.name)}\(Enum\)", src) is not None
+                real = (d.kind == "enum" and d.members) if is_enum else (d.kind == "class" and any(x.kind == "fun" for x in d.members))
+                if real:
+                    rep.ok("referenced-declaration-is-real")
+                else:
+                    mini = {f"{PKG}/__init__.py": "", **fs}
+                    rep.violation("referenced-declaration-is-real", f"placeholder:{'enum' if is_enum else 'class'}|{feat.split('|')[0]}|{nc}", {"unit": label, "file": path, "stub": obs.stubs()[path][:400]}, files=mini, src_rel=PKG, opts=opts)
         for path, m in idx.modules.items():
             vs = closure_violations(m, declared_in)
             if not vs:
